@@ -66,7 +66,18 @@ void run_printf(Ctx &c, std::string in, unsigned variant) {
 	c.op("printf_format \"%s\" (variant %u)", show(in).c_str(), variant);
 	size_t nslots = 0; bool dollar = false;
 	for(char ch : in) { if(ch == '%' || ch == '*') nslots++; if(ch == '$') dollar = true; }
-	if(dollar) nslots += 9;
+	if(dollar) {
+		// A format in which every directive is positional (and none uses `*`) consumes exactly the arguments 1..max position: the
+		// argument area then has exactly that many slots, so that a fetch of an argument the format never names is an out-of-bounds read.
+		// Formats that mix numbered and unnumbered directives (undefined in POSIX) keep nine spare slots.
+		size_t maxpos = 0, dollars = 0, directives = 0; bool star = in.find('*') != std::string::npos;
+		for(size_t i = 0; i < in.size(); i++) {
+			if(in[i] == '%') { if(i + 1 < in.size() && in[i + 1] == '%') { i++; continue; } directives++; }
+			if(in[i] == '$') { dollars++; size_t j = i, v = 0, mul = 1; while(j > 0 && in[j - 1] >= '0' && in[j - 1] <= '9' && mul <= 1000) { v += (size_t)(in[j - 1] - '0') * mul; mul *= 10; j--; } if(v <= 64) maxpos = std::max(maxpos, v); }
+		}
+		if(!star && dollars >= directives && maxpos >= 1) { nslots = maxpos; c.tag("printf-all-positional-exact-args"); }
+		else nslots += 9;
+	}
 	// every slot is a valid pointer to a NUL-terminated string that is also a terminated wide string
 	static const char strbuf[16] __attribute__((aligned(8))) = {'a', 'b', 'c', 0, 0, 0, 0, 0, 0, 0, 0, 0, 0, 0, 0, 0};
 	uint64_t *area = (uint64_t *)malloc(nslots * 8); c.arena.push_back({area, nullptr});
@@ -130,6 +141,27 @@ struct Joined {
 	iterator end() const { return iterator{e2, e1, b2}; }
 };
 
+// An option table that is computed on the fly: dereferencing its iterator yields a frg::option by value (a proxy / generated
+// range, e.g. a transform view). parse_arguments accepts any range; every option it uses must be alive while it is used.
+struct GenTable {
+	Targets *tg;
+	frg::option at(int i) const {
+		switch(i) { case 0: return frg::option{"a", frg::store_true(tg->b1)}; case 1: return frg::option{"1", frg::as_number(tg->i)};
+			case 2: return frg::option{"aa", frg::as_string_view(tg->sv1)}; default: return frg::option{"a1", frg::as_number(tg->q)}; }
+	}
+	struct iterator {
+		using value_type = frg::option; using difference_type = ptrdiff_t; using iterator_category = std::input_iterator_tag; using reference = frg::option;
+		const GenTable *t = nullptr; int i = 0;
+		frg::option operator*() const { return t->at(i); }
+		iterator &operator++() { ++i; return *this; }
+		iterator operator++(int) { auto c = *this; ++i; return c; }
+		bool operator==(const iterator &o) const { return i == o.i; }
+	};
+	iterator begin() const { return iterator{this, 0}; }
+	iterator end() const { return iterator{this, 4}; }
+};
+static_assert(std::ranges::range<GenTable>);
+
 void run_cmdline(Ctx &c, const std::string &in, unsigned variant) {
 	c.op("parse_arguments \"%s\" (table %u)", show(in).c_str(), variant);
 	const char *buf = exact(c, in, false);
@@ -150,6 +182,9 @@ void run_cmdline(Ctx &c, const std::string &in, unsigned variant) {
 			// two option tables presented as one range (clang 14 cannot instantiate std::views::join of
 			// libstdc++ 12, so the joined range is written out)
 			frg::parse_arguments(line, Joined{t1.begin(), t1.end(), t2.begin(), t2.end()});
+		} else if(variant == 5) {
+			c.tag("cmdline-generated-option-table");
+			frg::parse_arguments(line, GenTable{tg});
 		} else if(variant == 4) {
 			// a table with entries that have no callback (reserved names): a matching token must end in the library's assertion, not in a call through null
 			frg::array args = { frg::option{"a", frg::option::fn_type{nullptr, nullptr, false}}, frg::option{"1", frg::option::fn_type{nullptr, nullptr, true}}, frg::option{"aa", frg::store_true(tg->b1)},
@@ -240,7 +275,7 @@ void verif_case(Ctx &c) {
 	switch(parser) {
 	case 0: run_printf(c, in, variant % 3); break;
 	case 1: run_fmt(c, in, variant % 3); break;
-	case 2: run_cmdline(c, in, variant % 5); break;
+	case 2: run_cmdline(c, in, variant % 6); break;
 	default: run_to_number(c, in, variant); break;
 	}
 	c.check_san("C20");
@@ -290,6 +325,7 @@ void verif_enum(Enum &e) {
 	if(!all(1 + 4, "{}:019xc", 4, "fmt without arguments: all strings over \"{}:019xc\" up to length 4")) return;
 	if(!all(2, "\" =a1", th ? 8 : 7, "parse_arguments (table 0): all strings over '\" =a1' up to the bound")) return;
 	if(!all(2 + 8, "\" =foqux1", th ? 6 : 5, "parse_arguments (joined tables): all strings over '\" =foqux1' up to the bound")) return;
+	if(!all(2 + 20, "\" =a1", th ? 7 : 6, "parse_arguments (option table generated on the fly): all strings over '\" =a1' up to the bound")) return;
 	if(!all(2 + 16, "\" =a1", th ? 7 : 6, "parse_arguments (table with null callbacks): all strings over '\" =a1' up to the bound")) return;
 	for(uint32_t ty = 0; ty < 6; ty++) if(!all(3 + 4 * ty, "09a", 6, "to_number: all strings over \"09a\" up to length 6")) return;
 	// long digit strings (overflow of every target type)
@@ -323,6 +359,18 @@ void verif_enum(Enum &e) {
 		if(!with({2, '1', '='}, {})) return; if(!with({2, 'a', 'a', '='}, {' ', 'a'})) return; if(!with({2, 'a', '1', '='}, {})) return; if(!with({2 + 12, 'n', '='}, {})) return;
 	}
 	e.scope("neighbours of every integer type limit (incl. leading zeros) in every numeric position of the four parsers", count);
+	// every order of up to four positional directives over positions 1..3 (descending, ascending, up-down-up, repeats): with an argument
+	// area of exactly max-position slots a re-fetch of an argument beyond the ones named is an out-of-bounds read
+	count = 0;
+	for(unsigned len = 1; len <= 4; len++) {
+		unsigned total = 1; for(unsigned i = 0; i < len; i++) total *= 3;
+		for(unsigned code = 0; code < total; code++) for(char conv : {'d', 's'}) for(uint32_t variant : {0u, 2u}) {
+			std::vector<uint32_t> tape{0 + 4 * variant};
+			unsigned x = code; for(unsigned i = 0; i < len; i++) { tape.push_back('%'); tape.push_back('1' + x % 3); tape.push_back('$'); tape.push_back((unsigned char)conv); x /= 3; }
+			if(!e.run(tape)) return; count++;
+		}
+	}
+	e.scope("printf_format: every sequence of up to four positional directives over the positions 1..3 with an exact-size argument area", count);
 	// runs of ordinary characters of EVERY length up to a bound (and around larger powers of two), followed by each meta token and a tail:
 	// a parser that collects text in an internal buffer is probed at every fill level
 	count = 0;
